@@ -16,6 +16,8 @@ CONSTANTS
   FIX_RENAMEDIR = TRUE
   FIX_SCANWATCHED = TRUE
   FIX_RETRY = TRUE
+  FIX_OVERFLOW = TRUE
+  QMax = 99
   RECORD = FALSE
 INVARIANTS TypeOK Bounded WatchesOK
 PROPERTIES Converges ErrConverges Settles ConfigureFresh
